@@ -206,6 +206,20 @@ impl Pager {
             .truncate(false)
             .open(&path)?;
 
+        // One writer handle per database: hold an advisory exclusive lock on the page file for
+        // as long as it is open (released by the OS when the handle or the process goes away).
+        // A second handle, in this or another process, is refused instead of silently
+        // interleaving its WAL appends and page writes with the first one's.
+        if let Err(e) = file.try_lock() {
+            return Err(match e {
+                std::fs::TryLockError::WouldBlock => Error::Io(io::Error::new(
+                    io::ErrorKind::WouldBlock,
+                    "database is already open in another handle",
+                )),
+                std::fs::TryLockError::Error(e) => Error::Io(e),
+            });
+        }
+
         // A crash while the file was being created leaves it shorter than meta + bitmap, or
         // exactly that long and still zero-filled (set_len done, first meta write not).  No open
         // ever succeeded on such a file, so it holds no data: initialise it again.
